@@ -6,7 +6,7 @@
 //!                                    {"k":"codes","rows":[{"c","p","alt"}..]}
 //!                                    {"k":"s","r":{version,code,headers,body},"lines":[..],"rt":bool,"tail","tail_CrlfAfterBody"}
 //!                                    {"k":"p","head":str,"frames":[text,data,text,..],"exp":{version,code,headers,body}}
-//!                                    {"k":"c",name,value,attrs,expires,maxage,domain,path,samesite,exp,pair,avs}
+//!                                    {"k":"c",name,value,attrs,expires,maxage(decimal string),millis,domain,path,samesite,exp,pair,avsets}
 //!                                  stdout: mismatch records + one {"summary":true,..}
 //!   httpresp random <n> <maxbody>  stdout: ndjson log of random large cases run on the real code, for Trace_HttpResp
 //!   httpresp client <level>        stdin: {"k":"client",follow,script:[..],exp:{..}} behaviours from Gen_Client_*.cfg;
@@ -406,64 +406,85 @@ fn replay(level: usize) {
             }
             "c" => {
                 n_c += 1;
-                t.evals += 1;
                 let attrs: Vec<&str> = v["attrs"].as_array().unwrap().iter().map(|x| x.as_str().unwrap()).collect();
-                let mut c = SetCookie::new(v["name"].as_str().unwrap(), v["value"].as_str().unwrap());
-                // builder calls in an order different from the serialisation order
-                for a in ["HttpOnly", "Path", "Expires", "Secure", "SameSite", "Domain", "Max-Age"] {
-                    if !attrs.contains(&a) {
-                        continue;
-                    }
-                    c = match a {
-                        "Expires" => c.with_expires(v["expires"].as_str().unwrap()),
-                        "Max-Age" => c.with_max_age(Duration::from_secs(v["maxage"].as_u64().unwrap())),
-                        "Domain" => c.with_domain(v["domain"].as_str().unwrap()),
-                        "Path" => c.with_path(v["path"].as_str().unwrap()),
-                        "SameSite" => c.with_same_site(match v["samesite"].as_str().unwrap() {
-                            "Strict" => SameSite::Strict,
-                            "Lax" => SameSite::Lax,
-                            _ => SameSite::None,
-                        }),
-                        "Secure" => c.with_secure(true),
-                        _ => c.with_http_only(true),
-                    };
-                }
                 if attrs.len() >= 2 {
                     nontrivial += 1;
                 }
-                let h: Header = c.clone().into();
-                let mut avs: Vec<String> = v["avs"].as_array().unwrap().iter().map(|x| x.as_str().unwrap().to_string()).collect();
-                avs.sort();
-                let mut parts = h.value.split("; ");
-                let pair = parts.next().unwrap_or("").to_string();
-                let mut got_avs: Vec<String> = parts.map(|s| s.to_string()).collect();
-                got_avs.sort();
-                let mut what = vec![];
-                if h.name != HeaderType::SetCookie {
-                    what.push("header name");
-                }
-                if pair != v["pair"].as_str().unwrap() {
-                    what.push("cookie pair");
-                }
-                if got_avs != avs {
-                    what.push("attributes");
-                }
-                // through a response: one line per Set-Cookie, in the order added, and back through the parser
-                let resp = Response::empty(StatusCode::OK).with_cookie(c).with_cookie(SetCookie::new("other", "1"));
-                let bytes: Vec<u8> = resp.into();
-                let cl = classes(&bytes);
-                let sc: Vec<String> = cl.hlines.iter().filter_map(|l| split_hline(l)).filter(|(n, _)| n.eq_ignore_ascii_case("set-cookie")).map(|(_, v)| v).collect();
-                if sc != vec![h.value.clone(), "other=1".to_string()] || cl.hlines.len() != 2 {
-                    what.push("Set-Cookie lines of the response");
-                }
-                let p = parse_with(&bytes, &[]);
-                if !(p.res == "ok" && p.headers.iter().map(|(_, v)| v.clone()).collect::<Vec<_>>() == vec![h.value.clone(), "other=1".to_string()]) {
-                    what.push("Set-Cookie after parsing back");
-                }
-                if !what.is_empty() {
-                    t.bad(json!({"kind": "cookie", "vector": v, "what": what, "attrs": attrs, "expected_pair": v["pair"], "expected_attributes": avs, "got": h.value, "serialised": show(&bytes)}));
-                } else if t.samples.iter().filter(|x| x.get("header_value").is_some()).count() < 1 && attrs.len() == 7 && v["samesite"] == "Lax" && v["maxage"] == 3600 {
-                    t.samples.push(json!({"cookie_attrs": attrs, "header_value": h.value}));
+                // "~" in the spec's strings stands for a non-ASCII character: substituted in input and expectation alike
+                let uses_tilde = v["domain"].as_str().unwrap().contains('~') || v["path"].as_str().unwrap().contains('~');
+                for sub in if uses_tilde { vec!["\u{e9}", "\u{4e16}", "~"] } else { vec!["~"] } {
+                    t.evals += 1;
+                    let f = |k: &str| v[k].as_str().unwrap().replace('~', sub);
+                    let secs: u64 = match v["maxage"].as_str().unwrap().parse() {
+                        Ok(x) => x,
+                        Err(_) => { t.bad(json!({"kind": "cookie", "vector": v, "what": ["Max-Age of the vector is not a u64"]})); continue; }
+                    };
+                    let millis = v["millis"].as_u64().unwrap() as u32;
+                    let mut c = SetCookie::new(f("name"), f("value"));
+                    // builder calls in an order different from the serialisation order
+                    for a in ["HttpOnly", "Path", "Expires", "Secure", "SameSite", "Domain", "Max-Age"] {
+                        if !attrs.contains(&a) {
+                            continue;
+                        }
+                        c = match a {
+                            "Expires" => c.with_expires(f("expires")),
+                            "Max-Age" => c.with_max_age(Duration::new(secs, millis * 1_000_000)),
+                            "Domain" => c.with_domain(f("domain")),
+                            "Path" => c.with_path(f("path")),
+                            "SameSite" => c.with_same_site(match v["samesite"].as_str().unwrap() {
+                                "Strict" => SameSite::Strict,
+                                "Lax" => SameSite::Lax,
+                                _ => SameSite::None,
+                            }),
+                            "Secure" => c.with_secure(true),
+                            _ => c.with_http_only(true),
+                        };
+                    }
+                    let h: Header = match std::panic::catch_unwind({ let c = c.clone(); move || Header::from(c) }) {
+                        Ok(h) => h,
+                        Err(_) => { t.bad(json!({"kind": "cookie", "vector": v, "what": ["panic in From<SetCookie>"]})); continue; }
+                    };
+                    // acceptable attribute sets (one per acceptable Max-Age: truncated or rounded fraction)
+                    let avsets: Vec<Vec<String>> = v["avsets"].as_array().unwrap().iter().map(|set| {
+                        let mut x: Vec<String> = set.as_array().unwrap().iter().map(|y| y.as_str().unwrap().replace('~', sub)).collect();
+                        x.sort();
+                        x
+                    }).collect();
+                    let mut parts = h.value.split("; ");
+                    let pair = parts.next().unwrap_or("").to_string();
+                    let mut got_avs: Vec<String> = parts.map(|s| s.to_string()).collect();
+                    got_avs.sort();
+                    let mut what = vec![];
+                    if h.name != HeaderType::SetCookie {
+                        what.push("header name");
+                    }
+                    if pair != f("pair") {
+                        what.push("cookie pair");
+                    }
+                    if !avsets.contains(&got_avs) {
+                        what.push("attributes");
+                    }
+                    // through a response: one line per Set-Cookie, in the order added, and back through the parser
+                    let resp = Response::empty(StatusCode::OK).with_cookie(c).with_cookie(SetCookie::new("other", "1"));
+                    let bytes: Vec<u8> = resp.into();
+                    let cl = classes(&bytes);
+                    let sc: Vec<String> = cl.hlines.iter().filter_map(|l| split_hline(l)).filter(|(n, _)| n.eq_ignore_ascii_case("set-cookie")).map(|(_, v)| v).collect();
+                    if sc != vec![h.value.clone(), "other=1".to_string()] || cl.hlines.len() != 2 {
+                        what.push("Set-Cookie lines of the response");
+                    }
+                    let p = parse_with(&bytes, &[]);
+                    if !(p.res == "ok" && p.headers.iter().map(|(_, v)| v.clone()).collect::<Vec<_>>() == vec![h.value.clone(), "other=1".to_string()]) {
+                        what.push("Set-Cookie after parsing back");
+                    }
+                    if !what.is_empty() {
+                        let short = |s: &str| if s.len() > 300 { format!("{}...({} bytes)", &s[..120], s.len()) } else { s.to_string() };
+                        t.bad(json!({"kind": "cookie", "vector": v, "what": what, "attrs": attrs, "max_age": {"secs": v["maxage"], "millis": millis},
+                            "accepted_attribute_sets": avsets, "got": short(&h.value)}));
+                        break;
+                    } else if t.samples.iter().filter(|x| x.get("header_value").is_some()).count() < 2 && attrs.len() == 7
+                        && (v["maxage"] == "16777217" || v["samesite"] == "Strict") && h.value.len() < 300 {
+                        t.samples.push(json!({"cookie_attrs": attrs, "max_age": {"secs": v["maxage"], "millis": millis}, "header_value": h.value}));
+                    }
                 }
             }
             _ => {}
@@ -497,26 +518,35 @@ fn rand_token(rng: &mut Rng, max: usize) -> String {
     s
 }
 
+const MAX_AGES: [u64; 14] = [0, 1, 3600, 31536000, (1 << 24) - 1, 1 << 24, (1 << 24) + 1, (1 << 25) + 1, i32::MAX as u64, 1 << 31,
+    u32::MAX as u64, (1 << 32) + 1, (1 << 53) + 1, u64::MAX];
+
 fn rand_cookie(rng: &mut Rng) -> (SetCookie, Value) {
     let name = format!("c{}", rng.below(1000));
-    let value = rand_token(rng, 12).replace([' ', ';', ',', ':'], "x");
+    let mut value = rand_token(rng, 12).replace([' ', ';', ',', ':'], "x");
+    if rng.chance(1, 4) { value.push('='); }
     let mut attrs: Vec<&str> = vec![];
     let mut c = SetCookie::new(&name, &value);
-    let maxage = rng.below(100000) as u64;
+    // lifetimes: boundary values, or uniformly random among the numbers of a random bit length 1..64
+    let secs: u64 = if rng.chance(1, 3) { *rng.pick(&MAX_AGES) } else { let bits = rng.range(1, 64); let x = rng.next_u64() >> (64 - bits); x | (1u64 << (bits - 1)) | (rng.next_u64() & 1) };
+    let millis: u32 = *rng.pick(&[0, 0, 1, 250, 499, 500, 750, 999]);
     let ss = *rng.pick(&["Strict", "Lax", "None"]);
-    if rng.chance(1, 2) { c = c.with_path("/p"); attrs.push("Path"); }
+    let path = *rng.pick(&["/p", "/a b", "/q=1", "/"]);
+    let domain = *rng.pick(&["example.org", ".example.org", "a=b.example"]);
+    let expires = *rng.pick(&["Thu, 01 Jan 2026 00:00:00 GMT", "Fri, 31 Dec 9999 23:59:59 GMT"]);
+    if rng.chance(1, 2) { c = c.with_path(path); attrs.push("Path"); }
     if rng.chance(1, 2) { c = c.with_http_only(true); attrs.push("HttpOnly"); }
-    if rng.chance(1, 2) { c = c.with_max_age(Duration::from_secs(maxage)); attrs.push("Max-Age"); }
-    if rng.chance(1, 2) { c = c.with_domain("example.org"); attrs.push("Domain"); }
+    if rng.chance(2, 3) { c = c.with_max_age(Duration::new(secs, millis * 1_000_000)); attrs.push("Max-Age"); }
+    if rng.chance(1, 2) { c = c.with_domain(domain); attrs.push("Domain"); }
     if rng.chance(1, 2) { c = c.with_secure(true); attrs.push("Secure"); }
-    if rng.chance(1, 2) { c = c.with_expires("Thu, 01 Jan 2026 00:00:00 GMT"); attrs.push("Expires"); }
+    if rng.chance(1, 2) { c = c.with_expires(expires); attrs.push("Expires"); }
     if rng.chance(1, 2) {
         c = c.with_same_site(match ss { "Strict" => SameSite::Strict, "Lax" => SameSite::Lax, _ => SameSite::None });
         attrs.push("SameSite");
     }
     let h: Header = c.clone().into();
-    let j = json!({"name": name, "value": value, "attrs": attrs, "expires": "Thu, 01 Jan 2026 00:00:00 GMT", "maxage": maxage,
-        "domain": "example.org", "path": "/p", "samesite": ss, "got": h.value});
+    let j = json!({"name": name, "value": value, "attrs": attrs, "expires": expires, "maxage": secs.to_string(), "millis": millis,
+        "domain": domain, "path": path, "samesite": ss, "got": h.value});
     (c, j)
 }
 
